@@ -297,6 +297,51 @@ fn judge(out: &mut UnitOut, origin: &str, m: &ErrMut, k: usize) {
             );
         }
     }
+    // (d) a range that spans several tokens covers a construct, so it cannot cut through a bracket pair
+    // (asserted only on texts whose own brackets are balanced: a mutation that deletes a bracket leaves no such constructs)
+    let balanced = |lo: usize, hi: usize| -> Option<bool> {
+        let toks: Vec<tu::Tok> = tu::tokenize(&v).into_iter().filter(|t| t.lo >= lo && t.hi <= hi && !matches!(t.kind, tu::TK::Space | tu::TK::Newline | tu::TK::Comment | tu::TK::Str)).collect();
+        if toks.len() < 2 {
+            return None;
+        }
+        let mut stack: Vec<char> = vec![];
+        for t in &toks {
+            match &v[t.lo..t.hi] {
+                "(" => stack.push(')'),
+                "[" => stack.push(']'),
+                "{" => stack.push('}'),
+                x @ (")" | "]" | "}") => {
+                    if stack.pop() != x.chars().next() {
+                        return Some(false);
+                    }
+                }
+                _ => {}
+            }
+        }
+        Some(stack.is_empty())
+    };
+    // ... and only for mutation kinds that leave the text syntactically well-formed: after a syntax error the parser's
+    // recovered nodes (e.g. a call closed early at the error) are not constructs the user wrote
+    let syntax_preserving = matches!(m.kind, "rename-to-undefined" | "unknown-field" | "literal-of-other-type" | "assign-to-let" | "unknown-named-argument" | "paren-operand");
+    let text_balanced = syntax_preserving && balanced(0, v.len()) != Some(false);
+    for (i, d) in dv.iter().enumerate() {
+        if !text_balanced {
+            break;
+        }
+        if !d.is_main || d.file_len.is_none() || d.lo >= d.hi || d.hi > v.len() || !d.on_boundaries {
+            continue;
+        }
+        let Some(ok) = balanced(d.lo, d.hi) else { continue };
+        out.count("bracket_balance_assertions", 1);
+        let (bad, stack): (bool, Vec<char>) = (!ok, vec![]);
+        if bad || !stack.is_empty() {
+            push(
+                "cause:range-cuts-a-bracket-pair",
+                format!("diagnostic `{}`: range {}..{} covers {:?}, which cuts through a bracket pair: it is not a construct of the program", d.msg, d.lo, d.hi, covered(&v, d.lo, d.hi)),
+                json!({"diag": i, "message": d.msg, "range": [d.lo, d.hi], "covered": covered(&v, d.lo, d.hi)}),
+            );
+        }
+    }
     // evidence
     let first_non_ascii = v.char_indices().find(|(_, c)| !c.is_ascii()).map(|x| x.0);
     if let (Some(fna), Some(da)) = (first_non_ascii, &da) {
@@ -342,6 +387,68 @@ fn judge(out: &mut UnitOut, origin: &str, m: &ErrMut, k: usize) {
                    "repro": "abra_core::check_lsp(\"main.abra\", MockFileProvider::single_file(text)).errors(); or run the CLI on `text` and look at the underlined span"}),
         );
     }
+}
+
+// ---------------------------------------------------------------- generated family: parenthesised operands
+
+/// Erroneous expressions whose offending construct starts or ends with a parenthesised operand / callee / receiver
+/// (the span of the construct has to include the parentheses), in three statement forms. The site is the expression.
+fn paren_family() -> &'static Vec<ErrMut> {
+    static P: OnceLock<Vec<ErrMut>> = OnceLock::new();
+    P.get_or_init(|| {
+        let pre = "fn add(a: int, b: int) -> int = a + b\nlet x = 1\nlet o = option.some(1)\n";
+        let mut exprs: Vec<String> = vec![];
+        for op in ["+", "-", "*", "/", "%", "^", "<", "<=", ">", ">=", "==", "!="] {
+            exprs.push(format!("(1 + 2) {op} \"three\""));
+            exprs.push(format!("\"three\" {op} (1 + 2)"));
+        }
+        for e in [
+            "(x) + \"three\"",
+            "((1 + 2)) * \"three\"",
+            "(1 + 2) * (\"three\")",
+            "(1 + 2) and true",
+            "(true) and 1",
+            "true or (1 + 2)",
+            "not (1 + 2)",
+            "-(\"s\")",
+            "(add)(1, \"two\")",
+            "(add)(1)",
+            "add((1), \"two\")",
+            "add(1, (\"two\"))",
+            "(x).nofield",
+            "(o).nofield",
+            "(x)[0]",
+            "(x)!",
+            "(1 + 2)!",
+            "[(1), \"a\"]",
+            "((1, 2)).nofield",
+            "(1 + 2) .. zzundef",
+            "(zzundef) + 1",
+            "(add)(zzundef, 1)",
+        ] {
+            exprs.push(e.to_string());
+        }
+        let mut v = vec![];
+        for e in &exprs {
+            for (fi, (a, b)) in [("let v = ", ""), ("", ""), ("println(", ")")].iter().enumerate() {
+                let text = format!("{pre}{a}{e}{b}\n");
+                let lo = pre.len() + a.len();
+                v.push(ErrMut {
+                    text,
+                    kind: "paren-operand",
+                    desc: format!("`{e}` {}", ["as a let initialiser", "as a statement", "as a call argument"][fi]),
+                    lo,
+                    hi: lo + e.len(),
+                    locality: true,
+                });
+            }
+        }
+        v
+    })
+}
+const PAREN_CHUNK: usize = 40;
+fn paren_units() -> usize {
+    paren_family().len().div_ceil(PAREN_CHUNK)
 }
 
 // ---------------------------------------------------------------- units
@@ -398,7 +505,7 @@ impl Prop for C33 {
         "exploration"
     }
     fn n_units(&self, tier: Tier) -> usize {
-        plan(tier).len()
+        plan(tier).len() + paren_units()
     }
     fn expected_evaluations(&self, tier: Tier) -> Option<u64> {
         // 7 prefix variants of every mutation, + 2 where a string literal contains / precedes the site, + 1 for a bad escape
@@ -411,9 +518,27 @@ impl Prop for C33 {
             }
             n += cache.as_ref().unwrap().1[lo..hi].iter().map(|m| n_variants(m) as u64).sum::<u64>();
         }
+        n += paren_family().iter().map(|m| n_variants(m) as u64).sum::<u64>();
         Some(n)
     }
     fn run_unit(&self, tier: Tier, unit: usize, out: &mut UnitOut) {
+        if unit >= plan(tier).len() {
+            // the generated parenthesised-operand family (after the corpus units, whose numbers do not change)
+            let fam = paren_family();
+            let u = unit - plan(tier).len();
+            for mi in u * PAREN_CHUNK..((u + 1) * PAREN_CHUNK).min(fam.len()) {
+                for k in 0..NVAR {
+                    if !applicable(&fam[mi], k) {
+                        continue;
+                    }
+                    if !out.begin_case((mi * NVAR + k) as u64) {
+                        continue;
+                    }
+                    judge(out, "generated/paren-operand", &fam[mi], k);
+                }
+            }
+            return;
+        }
         let (f, lo, hi) = plan(tier)[unit];
         let file = &tu::corpus()[f];
         let c0 = tu::thread_cpu_s();
@@ -457,13 +582,15 @@ impl Prop for C33 {
              (rename identifier to `zzundef`, `.name` to `.zzfield`, literal of another type, delete a single-line `->` arm, `x = x` after `let x`, drop last / add one call argument, add `zzarg = 0`, delete one token, `\\q` into a string literal): \
              {} erroneous programs × up to {} variants {:?} (the first 7 for every mutation; the two in-literal variants where a single-line string literal starts on the site's line at or before the site; \
              the non-ASCII escaped character for the bad-escape mutation); each text and its ASCII twin (non-ASCII char → `@`) analysed with check_lsp; every diagnostic's primary range must be start ≤ end ≤ file length, on char boundaries, \
-             and cover the same chars as the twin's; weak locality only for rename-of-a-use and bad-escape on pure-ASCII texts. \
+             cover the same chars as the twin's, and, when it spans more than one token, be balanced in (), [] and {{}} (a construct never cuts through a bracket pair); weak locality only for rename-of-a-use and bad-escape on pure-ASCII texts; \
+             plus a generated family of {} erroneous expressions whose offending construct begins or ends with a parenthesised operand, callee or receiver, in three statement forms, with the same variants and oracle (locality: the diagnostic must be on the expression's line). \
              Non-trivial = comparable pair with non-ASCII text before the end of some main-file diagnostic (distinct by text hash)",
             fs.len() - 5.min(fs.len()),
             fs.iter().filter(|i| !c[**i].name.starts_with("hand/")).map(|i| c[*i].text.len()).max().unwrap_or(0),
             muts,
             NVAR,
-            VARIANTS
+            VARIANTS,
+            paren_family().len()
         )
     }
     fn assumptions(&self) -> Vec<String> {
